@@ -60,45 +60,47 @@ deriving DecidableEq, Repr, Inhabited
 
 def MState.poolQ (s : MState) : Rat := match s.pool with | some p => p.q | none => 0
 
+/-- `match_same_day` for the day's single BUY lot: (matched quantity, legs) -/
+def sameDayPart (d : Day) (avail : Rat) (s : Trade) : Rat × List Leg :=
+  match d.buy with
+  | some b =>
+    if avail > 0 ∧ s.q > 0 then
+      let m := min s.q avail
+      (m, [mkLeg d.date .sameDay m (m * unitCost b d.offset) s (some d.date)])
+    else (0, [])
+  | none => (0, [])
+
+/-- `match_section_104`: (pool after, remaining after, legs) -/
+def poolPart (d : Day) (pool : Option Pool) (rem : Rat) (s : Trade) : Option Pool × Rat × List Leg :=
+  if rem > 0 then
+    match pool with
+    | some p =>
+      if p.q = 0 ∨ s.q = 0 then (some p, rem, [])
+      else
+        let m := min rem p.q
+        if m = 0 then (some p, rem, [])
+        else
+          let cost := m * (p.c / p.q)
+          (some ⟨p.q - m, p.c - cost⟩, rem - m, [mkLeg d.date .section104 m cost s none])
+    | none => (none, rem, [])
+  else (pool, rem, [])
+
 /-- `process_sell` -/
-def sellStep (t : String) (window : Int) (d : Day) (st : MState) (s : Trade) (future : List Day) (cl : List Rat) :
-    Except MErr (MState × List Rat × List Leg) :=
-  let held := st.avail + st.poolQ
-  if s.q > held then .error ⟨.exceedsHolding, t, d.ord, 1, 1, s.idx⟩
+def sellStep (t : String) (window : Int) (d : Day) (st : MState) (s : Trade) (future : List Day)
+    (cl : List Rat) : Except MErr (MState × List Rat × List Leg) :=
+  if s.q > st.avail + st.poolQ then .error ⟨.exceedsHolding, t, d.ord, 1, 1, s.idx⟩
   else
     -- 1. Same Day
-    let sd : Rat × List Leg :=
-      match d.buy with
-      | some b =>
-        if st.avail > 0 ∧ s.q > 0 then
-          let m := min s.q st.avail
-          (m, [mkLeg d.date .sameDay m (m * unitCost b d.offset) s (some d.date)])
-        else (0, [])
-      | none => (0, [])
-    let avail := st.avail - sd.1
-    let rem := s.q - sd.1
+    let sd := sameDayPart d st.avail s
     -- 2. 30-day rule
-    let la := if s.q = 0 then (cl, [], rem) else lookahead window d.date s rem d.r future cl
-    let rem := la.2.2
+    let la := if s.q = 0 then (cl, [], s.q - sd.1)
+              else lookahead window d.date s (s.q - sd.1) d.r future cl
     -- 3. Section 104
-    let p3 : Option Pool × Rat × List Leg :=
-      if rem > 0 then
-        match st.pool with
-        | some p =>
-          if p.q = 0 ∨ s.q = 0 then (some p, rem, [])
-          else
-            let m := min rem p.q
-            if m = 0 then (some p, rem, [])
-            else
-              let cost := m * (p.c / p.q)
-              (some ⟨p.q - m, p.c - cost⟩, rem - m, [mkLeg d.date .section104 m cost s none])
-        | none => (none, rem, [])
-      else (st.pool, rem, [])
-    let rem := p3.2.1
-    if rem > 0 then
-      if rem = s.q then .error ⟨.noPriorAcquisition, t, d.ord, 1, 1, s.idx⟩
+    let p3 := poolPart d st.pool la.2.2 s
+    if p3.2.1 > 0 then
+      if p3.2.1 = s.q then .error ⟨.noPriorAcquisition, t, d.ord, 1, 1, s.idx⟩
       else .error ⟨.unmatched, t, d.ord, 1, 1, s.idx⟩
-    else .ok ({ pool := p3.1, avail := avail }, la.1, sd.2 ++ la.2.1 ++ p3.2.2)
+    else .ok ({ pool := p3.1, avail := st.avail - sd.1 }, la.1, sd.2 ++ la.2.1 ++ p3.2.2)
 
 def sellsStep (t : String) (window : Int) (d : Day) (future : List Day) :
     MState → List Trade → List Rat → Except MErr (MState × List Rat × List Leg)
@@ -111,34 +113,37 @@ def sellsStep (t : String) (window : Int) (d : Day) (future : List Day) :
       | .error e => .error e
       | .ok (st'', cl'', legs') => .ok (st'', cl'', legs ++ legs')
 
+/-- the day's BUY enters the ledger less the claims earlier disposals made on it -/
+def buyStage (t : String) (d : Day) (claimed : Rat) : Except MErr Rat :=
+  match d.buy with
+  | some b =>
+    if claimed > b.q then .error ⟨.reservationExceedsBuy, t, d.ord, 1, 0, b.idx⟩
+    else .ok (b.q - claimed)
+  | none => .ok 0
+
+/-- `move_buy_to_pool`, then the day's SPLIT/UNSPLIT lines (`process_corporate_action`) -/
+def poolAfter (d : Day) (st : MState) : Option Pool :=
+  let pool1 : Option Pool :=
+    match d.buy with
+    | some b =>
+      if st.avail > 0 then
+        let c := st.avail * unitCost b d.offset
+        match st.pool with
+        | some p => some ⟨p.q + st.avail, p.c + c⟩
+        | none => some ⟨st.avail, c⟩
+      else st.pool
+    | none => st.pool
+  pool1.map (fun p => { p with q := p.q * d.r })
+
 /-- one calendar day of one security -/
 def dayStep (t : String) (window : Int) (pool : Option Pool) (d : Day) (claimed : Rat)
     (future : List Day) (cl : List Rat) : Except MErr (Option Pool × List Rat × List Leg) :=
-  -- add the day's BUY less the claims earlier disposals made on it
-  match (match d.buy with
-         | some b => if claimed > b.q then
-                       (Except.error ⟨.reservationExceedsBuy, t, d.ord, 1, 0, b.idx⟩ : Except MErr Rat)
-                     else .ok (b.q - claimed)
-         | none => .ok 0) with
+  match buyStage t d claimed with
   | .error e => .error e
   | .ok avail0 =>
     match sellsStep t window d future { pool := pool, avail := avail0 } d.sells cl with
     | .error e => .error e
-    | .ok (st, cl', legs) =>
-      -- move what is left of the BUY to the pool
-      let pool1 : Option Pool :=
-        match d.buy with
-        | some b =>
-          if st.avail > 0 then
-            let c := st.avail * unitCost b d.offset
-            match st.pool with
-            | some p => some ⟨p.q + st.avail, p.c + c⟩
-            | none => some ⟨st.avail, c⟩
-          else st.pool
-        | none => st.pool
-      -- the day's SPLIT/UNSPLIT lines
-      let pool2 := pool1.map (fun p => { p with q := p.q * d.r })
-      .ok (pool2, cl', legs)
+    | .ok (st, cl', legs) => .ok (poolAfter d st, cl', legs)
 
 /-- all days of one security; `cl` = claims on the days still to come -/
 def runDays (t : String) (window : Int) :
